@@ -461,6 +461,7 @@ type repoSpec struct {
 	Indexed  []string                       `json:"indexed"`
 	SizeMax  int                            `json:"sizemax"`
 	Missing  int                            `json:"missing"` // index of a content whose object is removed; -1 none
+	Repack   bool                           `json:"repack,omitempty"`
 }
 
 func genRepo(r *gen.Rand) repoSpec {
@@ -528,6 +529,8 @@ func genRepo(r *gen.Rand) repoSpec {
 	}
 	if r.Chance(1, 5) {
 		sp.Missing = r.Intn(6)
+	} else {
+		sp.Repack = r.Chance(1, 3)
 	}
 	return sp
 }
@@ -638,6 +641,10 @@ func runRepo(w *gen.Writer, sp repoSpec, tmp string) {
 		if b == "main" {
 			heads["HEAD"] = heads[b]
 		}
+	}
+	if sp.Repack && sp.Missing < 0 {
+		g.Repack()
+		w.Count("e2e:repacked", 1)
 	}
 	missingHash := ""
 	if sp.Missing >= 0 {
